@@ -17,6 +17,20 @@ func init() { Registry["C17"] = runC17 }
 
 func genSerialPoint(r *vlib.R) data.Point {
 	p := data.Point{Type: r.Str(), Key: r.Str(), Text: r.Str(), Origin: r.Str(), Value: genFloatBits(r)}
+	if r.Chance(0.15) {
+		// NUL bytes at the edges and inside (legal in a Go string and in the protobuf encoding)
+		nul := []string{"\x00", "cal\x00", "\x00cal", "a\x00b", "\x00\x00"}
+		switch r.Intn(4) {
+		case 0:
+			p.Type = nul[r.Intn(len(nul))]
+		case 1:
+			p.Key = nul[r.Intn(len(nul))]
+		case 2:
+			p.Text = nul[r.Intn(len(nul))]
+		default:
+			p.Origin = nul[r.Intn(len(nul))]
+		}
+	}
 	if len(p.Text) > 40 {
 		p.Text = p.Text[:40]
 		for !validUTF8Prefix(p.Text) {
